@@ -92,6 +92,8 @@ def median_filter(data, mask, radius, percent=50):
     """
     if mask is None:
         mask = np.ones(data.shape, dtype=bool)
+    else:
+        mask = np.asarray(mask, dtype=bool)
     if np.all(~mask):
         return data.copy()
     #
